@@ -128,9 +128,11 @@ def _run_one(args):
     try:
         plan = _PROP.plan(rng, tier, i)
         plan['_seed'] = seed
-        wd = os.path.join(_TMP, 'r%d' % i)
+        wd = os.path.join(_TMP, 'r%07d' % i)
         try:
             out = _PROP.execute(plan, wd)
+            if os.environ.get('VERIF_DEBUG_GATE') and out.violations:
+                shutil.copytree(wd, os.path.join(os.environ['VERIF_DEBUG_GATE'], 'worker_%d' % i), dirs_exist_ok=True)
         finally:
             simlib.cleanup_rundir(wd)
         return (i, seed, plan if (out.violations or out.infra) else None, outcome_json(out), time.time() - t0)
@@ -143,9 +145,12 @@ def outcome_json(o):
             'fp': o.fp, 'sig': o.sig, 'probes': o.probes, 'simsec': o.simsec, 'stats': o.stats, 'sample': o.sample}
 
 def execute_plan(prop, plan, tmp, tag):
-    wd = os.path.join(tmp, tag)
+    wd = os.path.join(tmp, simlib.fixed_name(tag))
     try:
-        return prop.execute(plan, wd)
+        o = prop.execute(plan, wd)
+        if os.environ.get('VERIF_DEBUG_GATE') and tag.startswith('gate'):
+            shutil.copytree(wd, os.path.join(os.environ['VERIF_DEBUG_GATE'], tag), dirs_exist_ok=True)
+        return o
     finally:
         simlib.cleanup_rundir(wd)
 
@@ -177,9 +182,7 @@ def run_check(prop, tier, base_seed, jobs=None, replay_dir=None, max_runs=None, 
     # measured in this sandbox: page-fault/fork throughput is a global bottleneck; 8 plain / 4 ASan workers is the knee
     jobs = jobs or int(os.environ.get('VERIF_JOBS', '0')) or (4 if prop.variant == 'asan' else 8)
     os.environ['VERIF_SIMSQUID'] = simlib.simsquid_path(prop.variant)
-    tmp_root = os.environ.get('VERIF_TMP', '/dev/shm')
-    tmp = os.path.join(tmp_root, 'verif-%s-%d' % (prop.id, os.getpid()))
-    os.makedirs(tmp, exist_ok=True)
+    tmp = simlib.scratch_root()
     n_runs = max_runs or (prop.quick_runs if tier == 'quick' else prop.thorough_runs)
     wall_cap = wall or (prop.quick_wall if tier == 'quick' else prop.thorough_wall)
     known = load_known()
@@ -357,8 +360,7 @@ def replay(path):
         rec = json.load(f)
     prop = props.get(rec['property'])
     os.environ['VERIF_SIMSQUID'] = simlib.simsquid_path(prop.variant)
-    tmp = os.path.join(os.environ.get('VERIF_TMP', '/dev/shm'), 'verif-replay-%d' % os.getpid())
-    os.makedirs(tmp, exist_ok=True)
+    tmp = simlib.scratch_root()
     keep = os.environ.get('VERIF_KEEP')
     try:
         if keep:
